@@ -865,6 +865,37 @@ int gettimeofday(struct timeval* tv, void* tz)
     return 0;
 }
 
+// the working directory is the simulator's too: a program that changes it changes how every relative
+// path it uses afterwards (the output directory!) is resolved
+int chdir(const char* path)
+{
+    if(!g.active)
+    {
+        static int (*real_chdir)(const char*) = (int (*)(const char*))dlsym(RTLD_NEXT, "chdir");
+        return real_chdir(path);
+    }
+    std::string a = resolve(norm(path));
+    if(a.empty())
+    {
+        errno = ELOOP;
+        return -1;
+    }
+    auto it = g.fs.find(a);
+    if(a != "/sim" && it == g.fs.end())
+    {
+        errno = ENOENT;
+        return -1;
+    }
+    if(a != "/sim" && !it->second.dir)
+    {
+        errno = ENOTDIR;
+        return -1;
+    }
+    g.cwd = a;
+    sim::stats().count("probe.chdir_by_the_program");
+    return 0;
+}
+
 // the simulated process lives in /sim: relative paths are resolved against it everywhere (norm), so
 // code that asks for the working directory (std::filesystem::absolute / relative / canonical) must
 // be told the same
@@ -1526,6 +1557,7 @@ RunOutcome run_sbeppc_here(const std::vector<std::string>& args, const std::vect
     g.fired_hard_output = g.fired_hard_input = false;
     g.bypass = 0;
     g.cond_fired = 0;
+    g.cwd = "/sim"; // every invocation starts in the simulated working directory
     for(auto& kv : g.fs) kv.second.created_by_run = false;
     g.active = true;
     set_budget_ms(20000);
@@ -1709,6 +1741,21 @@ struct Ref
 };
 std::map<std::string, Ref> g_ref;
 
+// How the command line spells the schema path: the same file, named differently (C20: the same schema
+// compiled again must give byte-identical files however its path is typed).
+long g_input_spelling = 0;
+std::string input_arg(const std::string& schema)
+{
+    switch(g_input_spelling)
+    {
+    case 1: return "./in/" + schema;
+    case 2: return "/sim/in/" + schema;
+    case 3: return "in/../in/./" + schema;
+    case 4: return "far/../in/" + schema;
+    default: return "in/" + schema;
+    }
+}
+
 std::vector<std::string> base_args(const std::string& schema, long outv)
 {
     std::vector<std::string> a = {"sbeppc"};
@@ -1717,7 +1764,7 @@ std::vector<std::string> base_args(const std::string& schema, long outv)
         a.push_back("--output-dir");
         a.push_back(out_dir_arg(outv));
     }
-    a.push_back("in/" + schema);
+    a.push_back(input_arg(schema));
     return a;
 }
 
@@ -2523,7 +2570,7 @@ void apply_include_op(const Op& op)
 std::vector<std::string> argv_variant(long v, const std::string& schema, long outv)
 {
     std::vector<std::string> a = {"sbeppc"};
-    const std::string file = "in/" + schema, od = out_dir_arg(outv == 4 ? 0 : outv);
+    const std::string file = input_arg(schema), od = out_dir_arg(outv == 4 ? 0 : outv);
     switch(v)
     {
     case 0: return base_args(schema, outv);
@@ -2807,6 +2854,14 @@ Result exec_plan(const Plan& plan)
                 res.signature = "HARNESS:unknown-schema";
                 return res;
             }
+            // third argument: how the schema path is spelled on this command line (references always use "in/<name>")
+            struct SpellingGuard
+            {
+                long saved;
+                ~SpellingGuard() { g_input_spelling = saved; }
+            } spelling_guard{g_input_spelling};
+            g_input_spelling = op.arg(2);
+            if(g_input_spelling) sim::stats().count("history.input_path_spelled_differently");
             const bool is_c20 = prop == "C20";
             if(g.fs.find("/sim/in/" + schema) == g.fs.end()) g.fs["/sim/in/" + schema].data = g_corpus.files[schema];
             const Ref* ref = nullptr;
@@ -3297,6 +3352,11 @@ Plan gen_c20(u64 seed, const std::string& tier)
             }
         }
         p.ops.push_back(run_op(s, outv, wl.chance(1, 8) ? (long)wl.range(1, 2) : 0));
+        {
+            // a quarter of the runs of a history spell the schema path differently (drawn from a fork)
+            sim::Rng sp = root.fork("input-spelling").fork((u64)p.ops.size());
+            if(sp.chance(1, 4)) p.ops.back().a.push_back((long long)sp.range(1, 4));
+        }
         if(wl.chance(1, 10))
         {
             Op r;
